@@ -1,21 +1,39 @@
 """C12 — ISO-TP reassembly returns exactly the transmitted telegrams."""
 import itertools
+import common
 import isotp_lib as L
 from common import hexa
+from extract import py2lean
 
 ID = "C12"
-LEAN_TARGETS = ["OdxVerif.Props.C12"]
+LEAN_TARGETS = ["OdxVerif.Props.C12", "OdxVerif.Props.C12Gen"]
 DRIVERS = ["drv_isotp"]
 P = "OdxVerif.IsoTp."
 THEOREMS = [P + t for t in ["C12_single", "C12_sequence", "C12_fc_noop", "C12_unknown_id_noop",
-                            "C12_interleaved", "C12_active_cts"]]
+                            "C12_interleaved", "C12_active_cts",
+                            # tie of kind (1): Gen/IsoTpStep.lean is regenerated from the source on every run (regen_isotp_step)
+                            "gen_stepE_eq", "gen_step_eq", "gen_lookup_eq", "gen_feedE_eq", "gen_stInit_eq",
+                            "C12_gen_step", "C12_gen_feed", "C12_interleaved_gen", "C12_sequence_gen"]]
 RULE = ("streams = ISO 15765-2 segmentations (Spec.segment, mirrored in harness/isotp_lib.py) of 1-4 telegrams per ID, "
         "1-3 listened IDs + unrelated IDs + flow-control frames, randomly or exhaustively interleaved; lengths biased to "
         "segment boundaries, 16-frame wrap and 4095; distinct = distinct (ids, frame list); non-trivial = at least one multi-frame transfer or >1 ID")
-TRUSTED = ["model lean/OdxVerif/Model/IsoTp.lean is hand-written; tied to odxtools/isotp_state_machine.py by event-trace comparison (callbacks, yields, final slot state)",
+TRUSTED = ["model lean/OdxVerif/Model/IsoTp.lean is hand-written; tied to odxtools/isotp_state_machine.py (a) by the theorem gen_stepE_eq: it equals, for all "
+           "slot states and frames, the Lean function regenerated on every run from IsoTpStateMachine.decode_rx_frame/__init__ by the translator "
+           "harness/extract/py2lean.py, (b) by event-trace comparison (callbacks, yields, final slot state)",
+           "translator harness/extract/py2lean.py (Python subset -> Lean; typing, scoping, bytearray aliasing rules in its doc string) and the primitives "
+           "lean/OdxVerif/Model/PyRt.lean (unbounded ints, bytes as List Nat with the AllBytes side condition, slices as drop/take, bitstruct u<n> fields "
+           "as big-endian bit fields, exceptions as Except)",
            "candump regex parsing (read_telegrams) and python-can Message/Bus objects are exercised differentially only"]
 ASSUMPTIONS = ["CAN frames are byte strings; can.BusABC reader/asyncio path of read_telegrams is not modelled",
                "telegram lengths 1..4095 (no 32-bit first-frame length escape)"]
+
+
+def regen_isotp_step(ctx):
+    """Gen/IsoTpStep.lean from the current source; Unsupported (source left the subset) = broken obligation"""
+    py2lean.regenerate_isotp(common.REPO, common.VERIF)
+
+
+GENERATORS = [regen_isotp_step]
 
 
 def gen_stream(rng, n_ids, big):
